@@ -808,7 +808,12 @@ func (c *FC) mustPass(rule, what string, via []ssa.Instruction, targets []ssa.In
 		return false
 	}
 	via = c.viaAnchors(via)
-	targets = c.anchors(targets)
+	// (this query runs on fn's own graph: every target is represented by its site in fn)
+	var own []ssa.Instruction
+	for _, t := range targets {
+		own = append(own, c.siteInFn(t))
+	}
+	targets = own
 	if len(via) == 0 {
 		c.r.fail(rule, key, c.pos(), "required call sits in a helper that can return normally without making it")
 		return false
@@ -909,7 +914,7 @@ func (c *FC) isRequiredStepError(iff *ssa.If) bool {
 	}
 	fi := c.p.info(c.fn)
 	for _, s := range succ {
-		if fi.entryReachesAvoiding(s, []ssa.Instruction{call}) {
+		if fi.entryReachesAvoiding(c.siteInFn(s), []ssa.Instruction{call}) {
 			return false
 		}
 	}
